@@ -31,6 +31,7 @@ type c20Case struct {
 	Releases []c20Release  `json:"releases"`
 	Fault    *ghfake.Fault `json:"fault,omitempty"`
 	Name     string        `json:"name"`
+	Stale    string        `json:"stale,omitempty"` // what an earlier, interrupted run left next to the executable: new-file | old-file | new-dir
 	Local    string        `json:"local,omitempty"` // a local fault while installing: rename | write-new | open-new (every such system call fails)
 }
 
@@ -247,6 +248,14 @@ func c20Check(env *core.Env, cc core.Case) core.Verdict {
 		return core.Incon("cannot start the fake release service: %v", err)
 	}
 	defer srv.Close()
+	switch c.Stale {
+	case "new-file":
+		_ = os.WriteFile(filepath.Join(filepath.Dir(exe), ".crs-toolchain.new"), []byte("half a download"), 0o755)
+	case "old-file":
+		_ = os.WriteFile(filepath.Join(filepath.Dir(exe), ".crs-toolchain.old"), []byte("the executable before the last update"), 0o755)
+	case "new-dir":
+		_ = os.MkdirAll(filepath.Join(filepath.Dir(exe), ".crs-toolchain.new"), 0o755)
+	}
 	before := sut.Snap(filepath.Dir(exe))
 	// whether the run happens inside a CI job is not an input of self-update
 	xenv := srv.Env()
@@ -317,6 +326,10 @@ func c20Check(env *core.Env, cc core.Case) core.Verdict {
 			}
 		}
 		v.Features = append(v.Features, fmt.Sprintf("fault:%s@%d reached=%v", c.Fault.Kind, c.Fault.Index, reached))
+	}
+	if c.Stale == "new-dir" && outcome == "install" {
+		// a directory sits where the staging file belongs: a reported failure is as right as a completed installation
+		outcome = "install-or-fail"
 	}
 	v.Features = append(v.Features, "expected:"+outcome)
 	// trace property: the executable is replaced only after the asset and the checksum file of the same release were served
@@ -390,9 +403,9 @@ func c20Check(env *core.Env, cc core.Case) core.Verdict {
 			return core.Viol("installed-not-newer", "nothing newer to install (%s) but the executable was replaced\n%s", why, ctx())
 		}
 	}
-	// no temporary files left next to the executable
+	// no temporary files left next to the executable (what an earlier run left behind may be cleaned up or replaced)
 	for _, d := range sut.Diff(before, sut.Snap(filepath.Dir(exe))) {
-		if d != "~crs-toolchain" {
+		if d != "~crs-toolchain" && !(c.Stale != "" && strings.HasPrefix(d[1:], ".crs-toolchain.")) {
 			return core.Viol("leftover-files", "self-update left %s next to the executable\n%s", d, ctx())
 		}
 	}
@@ -485,6 +498,14 @@ func c20Cases(env *core.Env, rng *rand.Rand) []core.Case {
 			}
 		}
 	}
+	// leftovers of an earlier, interrupted run next to the executable: outcomes are as without them
+	for _, s := range byName("newer-verified", "checksum-mismatch", "checksum-missing", "archive-corrupt", "equal", "older") {
+		for _, stale := range []string{"new-file", "old-file", "new-dir"} {
+			for _, run := range runnings[:2] {
+				cs = append(cs, &c20Case{Running: run, Releases: s.rels, Name: s.name + "+stale-" + stale, Stale: stale})
+			}
+		}
+	}
 	// random catalogues
 	n := env.N(200, 2000)
 	tags := []string{"v1.0.0", "v1.9.9", "v2.0.0", "v2.0.1", "v2.1.0", "v3.1.4", "v9.9.9", "v10.0.0", "nightly", "v2.2.0-rc1", "2.3.0", "v0.9.0"}
@@ -513,7 +534,7 @@ func init() {
 	register(&core.Property{
 		ID:    "C20",
 		Level: "fault_enumeration",
-		Rule: "the built CLI (variants with main.version = v2.0.0, v0.0.0-dev, empty -> 'dev', v2.1.0-rc.1 and v3.0.0-beta.2), copied into a sandbox, runs `self-update` against a fake of the GitHub release API (TLS-intercepting CONNECT proxy, selected only through HTTPS_PROXY / SSL_CERT_FILE). Enumerated: 38 catalogues (newer verified release, checksum mismatching / for another file / for names that only contain the asset's name / truncated / of the unpacked payload / empty / missing / right but spelled in upper case, with CRLF or with the binary marker (installing and refusing both accepted), corrupt archive, archive without the binary, other platforms only, another architecture of the same OS only / listed first, no assets, empty catalogue, draft, pre-release, older, equal, equal but tampered, non-semver tag, rc tag newer / older than / of the running version, newest release unusable with an older usable one behind it, unordered catalogues) x 5 running versions, and for four flows one HTTP fault (500, 404, 403, 403 with the rate-limit headers of the API, truncated body, connection reset, empty 200) at each request index 1..4 x 2 running versions; plus, for three installing flows x 3 running versions, a local fault while the new executable is put in place (every rename fails; every write to, or the creation of, the temporary file next to the executable fails; injected with strace): the executable must be the old one or the complete verified payload, and status 0 only with the payload; plus PRNG catalogues of 0..6 releases with random attributes and faults. " +
+		Rule: "the built CLI (variants with main.version = v2.0.0, v0.0.0-dev, empty -> 'dev', v2.1.0-rc.1 and v3.0.0-beta.2), copied into a sandbox, runs `self-update` against a fake of the GitHub release API (TLS-intercepting CONNECT proxy, selected only through HTTPS_PROXY / SSL_CERT_FILE). Enumerated: 38 catalogues (newer verified release, checksum mismatching / for another file / for names that only contain the asset's name / truncated / of the unpacked payload / empty / missing / right but spelled in upper case, with CRLF or with the binary marker (installing and refusing both accepted), corrupt archive, archive without the binary, other platforms only, another architecture of the same OS only / listed first, no assets, empty catalogue, draft, pre-release, older, equal, equal but tampered, non-semver tag, rc tag newer / older than / of the running version, newest release unusable with an older usable one behind it, unordered catalogues) x 5 running versions, and for four flows one HTTP fault (500, 404, 403, 403 with the rate-limit headers of the API, truncated body, connection reset, empty 200) at each request index 1..4 x 2 running versions; plus, for three installing flows x 3 running versions, a local fault while the new executable is put in place (every rename fails; every write to, or the creation of, the temporary file next to the executable fails; injected with strace): the executable must be the old one or the complete verified payload, and status 0 only with the payload; plus six flows x 2 running versions with what an interrupted earlier run may have left next to the executable (a staging file, a backup file, a directory in the staging file's place); plus PRNG catalogues of 0..6 releases with random attributes and faults. The variants are built like release builds (version, commit, date, builder set). " +
 			"Oracle: a model of the statement decides install / fail / nothing-to-do; install: exit 0 and the executable equals the payload of the best release's linux_amd64 asset and is executable; fail: sha256 unchanged and exit != 0; nothing-to-do: unchanged. Trace property over the fake's request log: the executable changes only if the asset and the checksum file of the same release were both served completely. No file is left next to the executable; no runtime fault or panic. Non-trivial = every scenario.",
 		Cases:         c20Cases,
 		Check:         c20Check,
